@@ -1,8 +1,9 @@
 """C02 — lists behave as exact sequences (correspondence part)."""
-import vlib, gen_api
+from checks import apicheck
+import vlib
 
 
-def exhaustive_ranges(maxlen=5):
+def exhaustive_ranges(maxlen):
     """every (start, stop) around every small length, for each range-taking command"""
     ops = ["open a mem"]
     for n in range(0, maxlen + 1):
@@ -13,7 +14,6 @@ def exhaustive_ranges(maxlen=5):
             for b in range(-(n + 2), n + 3):
                 ops.append(f"api LRange {key} {a} {b}")
             ops.append(f"api LIndex {key} {a}")
-    # LTRIM / LSET / LREM mutate: fresh key per case
     i = 0
     for n in range(1, maxlen):
         for a in range(-(n + 1), n + 2):
@@ -36,10 +36,12 @@ def exhaustive_ranges(maxlen=5):
 
 
 def run(ctx, proofs_ok):
-    h = vlib.build_harness(ctx)
     quick = ctx.tier == "quick"
-    vlib.correspond_stream(ctx, h, exhaustive_ranges(4 if quick else 6), "ranges", "exhaustive index pairs on lists of length 0..n")
-    for i in range(4 if quick else 40):
-        ops = gen_api.stream(ctx.rng, ["list", "list", "list", "list", "key"], 1500 if quick else 5000)
-        if vlib.correspond_stream(ctx, h, ops, f"rand{i}", "random list command streams (embedded API, memory backend)"):
-            break
+    apicheck.run_streams(ctx, [
+        {"label": "random list command streams (embedded API, memory backend)", "fams": ["list", "list", "list", "list", "key"],
+         "n": (1500, 5000), "count": (4, 40)},
+        {"label": "list streams with eviction passes and reopen (memory backend, deterministic clock)", "fams": ["list", "list", "list", "key", "exp"],
+         "n": (1200, 4000), "count": (2, 12), "ft": True, "events": {"gc": 0.08, "flush": 0.03, "reopen": 0.02, "sleep": 0.03}},
+        {"label": "list streams on Pebble with eviction and reopen", "fams": ["list", "list", "list", "key"],
+         "n": (600, 3000), "count": (1, 6), "backend": "pebble", "events": {"gc": 0.08, "flush": 0.03, "reopen": 0.02}},
+    ], extra=[("exhaustive index pairs on lists of length 0..n", exhaustive_ranges(4 if quick else 6), False)])
